@@ -525,6 +525,43 @@ theorem fixSep_noBackslash (s : Str) : '\\' ∉ fixSep s := by
     · subst hc; simp [fixSep, ih]
     · simp [fixSep, hc, ih]; exact fun e => hc e.symm
 
+/-! ### 8. a `.` / `..` segment is seen by the component check wherever it stands -/
+
+theorem fixSep_append (a b : Str) : fixSep (a ++ b) = fixSep a ++ fixSep b := by
+  induction a with
+  | nil => rfl
+  | cons c a ih => simp [fixSep, ih]
+
+theorem mem_split_mid (a seg b : Str) (hs : '/' ∉ seg)
+    (ha : a = [] ∨ ∃ a0, a = a0 ++ ['/']) (hb : b = [] ∨ ∃ b0, b = '/' :: b0) :
+    seg ∈ split (a ++ seg ++ b) := by
+  have h2 : seg ∈ split (seg ++ b) := by
+    rcases hb with rfl | ⟨b0, rfl⟩
+    · simp [split_of_noSlash seg hs]
+    · rw [split_append_slash, split_of_noSlash seg hs]; simp
+  rcases ha with rfl | ⟨a0, rfl⟩
+  · simpa using h2
+  · have : a0 ++ ['/'] ++ seg ++ b = a0 ++ '/' :: (seg ++ b) := by simp
+    rw [this, split_append_slash]
+    exact List.mem_append_right _ h2
+
+theorem seg_mem_split (pre post seg : Str) (hseg : seg = dot ∨ seg = dotdot)
+    (hpre : pre = [] ∨ ∃ q, pre = q ++ ['/'] ∨ pre = q ++ ['\\'])
+    (hpost : post = [] ∨ ∃ q, post = '/' :: q ∨ post = '\\' :: q) :
+    seg ∈ split (fixSep (pre ++ seg ++ post)) := by
+  have hfs : fixSep seg = seg := by rcases hseg with rfl | rfl <;> decide
+  have hns : '/' ∉ seg := by rcases hseg with rfl | rfl <;> decide
+  rw [fixSep_append, fixSep_append, hfs]
+  apply mem_split_mid _ _ _ hns
+  · rcases hpre with rfl | ⟨q, rfl | rfl⟩
+    · exact Or.inl rfl
+    · exact Or.inr ⟨fixSep q, by simp [fixSep_append, fixSep]⟩
+    · exact Or.inr ⟨fixSep q, by simp [fixSep_append, fixSep]⟩
+  · rcases hpost with rfl | ⟨q, rfl | rfl⟩
+    · exact Or.inl rfl
+    · exact Or.inr ⟨fixSep q, by simp [fixSep]⟩
+    · exact Or.inr ⟨fixSep q, by simp [fixSep]⟩
+
 deriving instance DecidableEq for Except
 
 instance (r p : Str) : Decidable (Beneath r p) := by
